@@ -183,6 +183,12 @@ def run(ctx):
     from . import c05
     c05.run(ctx, ids=("R01-BT-PAIR", "R01-BT-RECOVER", "R01-BT-PRED", "R01-BT-CURSOR"), own=False)
 
+    # ---- implicit skipping and counted repetition are part of what is recognised: C07's and C19's instances
+    from . import c07, c19
+    ctx.adopt(c07.run, {"R07-PLACE": "R01-SKIP-PLACE", "R07-GIVEBACK": "R01-SKIP-GIVEBACK", "R07-CONST": "R01-SKIP-CONST",
+                        "R07-SKIPTY": "R01-SKIP-TYPE", "R07-KIND": "R01-SKIP-KIND"})
+    ctx.adopt(c19.run, {"R19-BOUNDS": "R01-REP-BOUNDS", "R19-SEQ": "R01-REP-SEQ", "R19-ALIAS": "R01-REP-ALIAS"})
+
     # ---- R01-OPMAP
     ro = ctx.rule("R01-OPMAP", "for each pest operator form the generated type has the class tree of that operator (children in grammar order), "
                                "optimizer on and off")
